@@ -417,5 +417,80 @@ theorem intValued_ne_nan {x : F64} (hx : IntValued x) (bx : (toInt x).natAbs ≤
   obtain ⟨m, e, h, -, -⟩ := ofInt_fin_form bx
   rw [hx, h]; simp
 
+/-! ### canonical doubles: `Equal` means identical, except for the two zeros -/
+
+theorem canon_mant_unique {m1 m2 : Nat} {e1 e2 : Int} (c1 : Canon (fin false m1 e1))
+    (c2 : Canon (fin false m2 e2)) (h0 : m1 ≠ 0)
+    (h : m1 * pow2 (e1 - eMin) = m2 * pow2 (e2 - eMin)) : m1 = m2 ∧ e1 = e2 := by
+  rw [canon_fin] at c1 c2
+  have key : ∀ {ma mb : Nat} {ea eb : Int}, ma < two53 → (mb < two52 → eb = eMin) → eMin ≤ ea →
+      ea < eb → mb ≠ 0 → ma * pow2 (ea - eMin) = mb * pow2 (eb - eMin) → False := by
+    intro ma mb ea eb hma hsub hea hlt hmb heq
+    rw [pow2_sub_split hea (by omega : ea ≤ eb), ← Nat.mul_assoc] at heq
+    have hcancel := Nat.eq_of_mul_eq_mul_right (pow2_pos _) heq
+    have h2 : 2 ≤ pow2 (eb - ea) := by
+      have : pow2 1 ≤ pow2 (eb - ea) := pow2_le_pow2 (by omega)
+      exact this
+    have hmb52 : two52 ≤ mb := by
+      apply Nat.le_of_not_lt; intro hl; have := hsub hl; omega
+    have : mb * 2 ≤ mb * pow2 (eb - ea) := Nat.mul_le_mul_left _ h2
+    have h53 : two53 = two52 * 2 := by decide
+    omega
+  have hm2 : m2 ≠ 0 := by
+    intro h2; rw [h2, Nat.zero_mul] at h
+    rcases Nat.mul_eq_zero.1 h with h' | h'
+    · exact h0 h'
+    · have := pow2_pos (e1 - eMin); omega
+  have he : e1 = e2 := by
+    rcases Int.lt_trichotomy e1 e2 with hlt | heq | hgt
+    · exact (key c1.1 c2.2.2.2 c1.2.1 hlt hm2 h).elim
+    · exact heq
+    · exact (key c2.1 c1.2.2.2 c2.2.1 hgt h0 h.symm).elim
+  subst he
+  exact ⟨Nat.eq_of_mul_eq_mul_right (pow2_pos _) h, rfl⟩
+
+theorem canon_eq_of_ocmp_eq {x y : F64} (cx : Canon x) (cy : Canon y) (hx : x ≠ nan)
+    (hy : y ≠ nan) (h : ocmp x y = .eq) : x = y ∨ (x.isZero = true ∧ y.isZero = true) := by
+  cases x with
+  | nan => exact absurd rfl hx
+  | inf a =>
+    cases y with
+    | nan => exact absurd rfl hy
+    | inf b => left; cases a <;> cases b <;> simp_all [ocmp, pcmp]
+    | fin s m e => cases a <;> simp [ocmp, pcmp] at h
+  | fin s1 m1 e1 =>
+    cases y with
+    | nan => exact absurd rfl hy
+    | inf b => cases b <;> simp [ocmp, pcmp] at h
+    | fin s2 m2 e2 =>
+      have c1 := cx; have c2 := cy
+      rw [canon_fin] at c1 c2
+      rw [ocmp_fin, cmpFin_scale _ _ _ _ _ _ eMin c1.2.1 c2.2.1, Int.compare_eq_eq] at h
+      unfold scaled at h
+      have hn := congrArg Int.natAbs h
+      rw [Int.natAbs_mul, Int.natAbs_mul, smant_natAbs, smant_natAbs, Int.natAbs_natCast,
+        Int.natAbs_natCast] at hn
+      by_cases h0 : m1 = 0
+      · right
+        subst h0
+        rw [Nat.zero_mul] at hn
+        have : m2 = 0 := by
+          rcases Nat.mul_eq_zero.1 hn.symm with h' | h'
+          · exact h'
+          · have := pow2_pos (e2 - eMin); omega
+        subst this
+        exact ⟨rfl, rfl⟩
+      · left
+        obtain ⟨hm, he⟩ := canon_mant_unique (m1 := m1) (m2 := m2) c1 c2 h0 hn
+        subst hm he
+        have hs : s1 = s2 := by
+          have hP : (0 : Int) < (pow2 (e1 - eMin) : Nat) := by
+            have := pow2_pos (e1 - eMin); omega
+          have hm1 : (0 : Int) < (m1 : Int) := by omega
+          have hpos := Int.mul_pos hm1 hP
+          cases s1 <;> cases s2 <;> simp only [smant_false, smant_true, Int.neg_mul] at h <;>
+            first | rfl | omega
+        rw [hs]
+
 end F64
 end Ag
